@@ -53,6 +53,7 @@ class Env:
         self.small = self._mk("small.txt", b"0123456789" * 3)
         self.binf = self._mk("data.bin", bytes(range(256)) * 2)
         self.nonascii = self._mk("résumé.txt", b"cv")
+        self.empty = self._mk("empty.txt", b"")
         self.tree = os.path.join(self.dir, "site")
         os.makedirs(os.path.join(self.tree, "sub"), exist_ok=True)
         for rel, data in (("index.html", b"<h1>root</h1>"), ("a.txt", b"file a"), ("page.html", b"<p>page</p>"),
@@ -108,6 +109,9 @@ def response_recipes():
             stream(i, [{"data": "d%d\nx" % j, "event": "e", "id": str(j)} for j in range(k)]), ping_interval=30), k)
     add("File(ascii)", lambda i, e: pkg(i).FileResponse(e.small), None)
     add("File(binary, download)", lambda i, e: pkg(i).FileResponse(e.binf, download_name="d.bin", chunk_size=100), None)
+    add("File(size multiple of chunk)", lambda i, e: pkg(i).FileResponse(e.small, chunk_size=10), None)
+    add("File(size equals chunk)", lambda i, e: pkg(i).FileResponse(e.small, chunk_size=30), None)
+    add("File(empty)", lambda i, e: pkg(i).FileResponse(e.empty), None)
     add("File(non-ascii name)", lambda i, e: pkg(i).FileResponse(e.nonascii), None)
     add("File(non-ascii download_name)", lambda i, e: pkg(i).FileResponse(e.small, download_name="文件 é.txt"), None)
     add("File(latin-1 download_name)", lambda i, e: pkg(i).FileResponse(e.small, download_name="café.txt"), None)
